@@ -10,6 +10,7 @@ package jsonschema
 import (
 	"errors"
 	"fmt"
+	"math"
 	"net/url"
 	"reflect"
 	"regexp"
@@ -351,6 +352,24 @@ func (s *Schema) checkLocal(report func(error), infos map[*Schema]*resolvedInfo)
 	}
 
 	info := infos[s]
+
+	// The numeric keywords must be finite. JSON cannot express other values, so
+	// they can only come from a Schema built in Go, and validation cannot compare
+	// against them.
+	for _, kw := range []struct {
+		name  string
+		value *float64
+	}{
+		{"multipleOf", s.MultipleOf},
+		{"minimum", s.Minimum},
+		{"maximum", s.Maximum},
+		{"exclusiveMinimum", s.ExclusiveMinimum},
+		{"exclusiveMaximum", s.ExclusiveMaximum},
+	} {
+		if kw.value != nil && (math.IsInf(*kw.value, 0) || math.IsNaN(*kw.value)) {
+			addf("%s: %v is not a finite number", kw.name, *kw.value)
+		}
+	}
 
 	// Check and compile regexps.
 	if s.Pattern != "" {
